@@ -371,20 +371,178 @@ def hazes(ctx):
             ctx.verdict('list_restored', len(names) == len(added), cls='haze:' + kind, detail='list %r' % names, vector=vec)
 
 
+# ----------------------------------------------------------------------------
+# every built-in source together: two collision pairs, H-, hazes and the deck; the stored contribution table
+# ----------------------------------------------------------------------------
+
+ALLK = ['abs', 'cia2', 'ray', 'hm', 'cloud', 'flat', 'lee']
+CIA_TAB2 = 5e-55 * np.array([0.7, 1.1, 1.6, 0.5, 1.3])
+
+
+def build_full(added, params):
+    """Chemistry with H and e- (H- needs both); CIA with TWO pairs; all other sources as in build_model."""
+    from taurex.data.profiles.chemistry import TaurexChemistry, ConstantGas
+    from taurex.data.profiles.temperature import Isothermal
+    from taurex.contributions import CIAContribution
+    from taurex.contributions.hm import HydrogenIon
+    from taurex.cache import CIACache
+    if 'H2-H2' not in CIACache().cia_dict:
+        CIACache().add_cia(FixtureCIA('H2-H2', WN, [1000.0], [CIA_TAB2]))
+    chem = TaurexChemistry(fill_gases=['H2', 'He'], ratio=0.17)
+    chem.addGas(ConstantGas('H2O', mix_ratio=params['mix']))
+    chem.addGas(ConstantGas('CH4', mix_ratio=2e-4))
+    chem.addGas(ConstantGas('H', mix_ratio=params.get('H', 2e-3)))
+    chem.addGas(ConstantGas('e-', mix_ratio=params.get('e', 2e-6)))
+    m = make_transmission(NL, chemistry=chem, temperature=Isothermal(T=params['T']), pmin=1e0, pmax=1e5)
+    for k in added:
+        if k == 'cia2':
+            m.add_contribution(CIAContribution(cia_pairs=['H2-He', 'H2-H2']))
+        elif k == 'hm':
+            m.add_contribution(HydrogenIon())
+        else:
+            m.add_contribution(new_contrib(k, params))
+    m.build()
+    return m
+
+
+# the grey and the Lee haze both call themselves 'Mie': per-name results of a model holding both collide, so the
+# per-name clauses use subsets with at most one of them; model() itself is checked with both
+FULLNAME = dict(abs='Absorption', cia2='CIA', ray='Rayleigh', hm='HydrogenIon', cloud='SimpleClouds', flat='Mie', lee='Mie')
+
+
+def all_sources(ctx, nsub, nperm):
+    rng = random.Random(ctx.seed * 7919 + 3)
+    params = dict(cloudP=3e4, mix=MIX[0], T=2500.0, hazemix=3e-27)
+    alone = {}
+    for k in ALLK:
+        m1 = build_full([k], params)
+        alone[k] = np.asarray(m1.model()[2], dtype=float)
+        name = m1.contribution_list[0].name
+        if FULLNAME[k] != name:
+            raise Machinery('fixture: contribution %s is called %s' % (k, name))
+    if not (0.0 < float(alone['hm'].min()) < 0.9 and float(alone['cia2'].min()) < 0.99):
+        raise Machinery('fixture: H- / CIA are not partially transparent: %r %r' % (alone['hm'].min(), alone['cia2'].min()))
+    subsets = [list(ALLK)] + [[a, 'hm'] for a in ALLK if a != 'hm'] + [['cia2', a] for a in ('abs', 'ray')]
+    while len(subsets) < nsub:
+        k = rng.randint(2, len(ALLK))
+        subsets.append(rng.sample(ALLK, k))
+    subsets = [[k for k in sub if not (k == 'lee' and 'flat' in sub)] for sub in subsets]
+    for sub in subsets:
+        vec = dict(full=True, added=sub)
+        tag = '+'.join(sorted(sub))
+        try:
+            m = build_full(sub, params)
+            T = np.asarray(m.model()[2], dtype=float)
+            prod = np.prod([alone[k] for k in sub], axis=0)
+            ctx.verdict('product_over_sources_alone', same(T, prod), cls='alone:' + tag,
+                        detail='T(%s) != product of the transmittances of each source alone (max diff %.3g)' % (tag, float(np.abs(T - prod).max())),
+                        vector=vec)
+            mc = proj_contrib(m.model_contrib())
+            for k in sub:
+                n = FULLNAME[k]
+                ctx.verdict('source_in_company_equals_alone', n in mc and same(mc[n], alone[k]), cls='company:%s:in:%s' % (n, tag),
+                            detail='model_contrib()[%s] of a model with %s differs from the model with that source alone' % (n, tag), vector=vec)
+            T2 = np.asarray(m.model()[2], dtype=float)
+            ctx.verdict('history_independent_model', same(T2, T), cls='again:' + tag, detail='second model() differs from the first', vector=vec)
+            mf = proj_full(m.model_full_contrib())
+            for k in sub:
+                n = FULLNAME[k]
+                if n not in mf:
+                    ctx.verdict('every_source_once', False, cls='full:' + n, detail='%s missing from model_full_contrib()' % n, vector=vec)
+                    continue
+                pc = np.prod([a for _, a in mf[n]], axis=0)
+                ncomp = len(mf[n])
+                ctx.verdict('product_over_components', same(pc, alone[k]), cls='components:%s:n=%d' % (n, ncomp),
+                            detail='product of the %d components of %s != T(%s alone)' % (ncomp, n, n), vector=vec)
+                if k == 'cia2':
+                    ctx.verdict('every_component_once', sorted(c for c, _ in mf[n]) == ['H2-H2', 'H2-He'], cls='components:CIA:pairs',
+                                detail='CIA components %r' % [c for c, _ in mf[n]], vector=vec)
+        except Machinery:
+            raise
+        except Exception as e:   # noqa
+            ctx.verdict('history_no_exception', False, cls='full:' + tag, detail='%s: %s' % (type(e).__name__, e), vector=vec)
+    # insertion order
+    ref = None
+    perms = [list(ALLK), list(reversed(ALLK))] + [rng.sample(ALLK, len(ALLK)) for _ in range(nperm)]
+    for perm in perms:
+        T = np.asarray(build_full(perm, params).model()[2], dtype=float)
+        if ref is None:
+            ref = T
+            prod = np.prod([alone[k] for k in perm], axis=0)
+            ctx.verdict('product_over_sources_alone', same(T, prod), cls='alone:all-sources', detail='T(all seven sources) != product of each alone',
+                        vector=dict(full=True, added=perm))
+        ctx.verdict('order_independent', same(T, ref), cls='perm:all-sources', detail='insertion order %r gives a different T' % (perm,),
+                    vector=dict(full=True, added=perm))
+    # the two CIA pairs against the documented weighting (table x mix1 x mix2 x n^2), evaluated from the fixtures
+    m = build_full(['cia2'], params)
+    m.model()
+    chem = m.chemistry
+    dens = np.asarray(m.densityProfile, dtype=float)
+    r = (m.planet.fullRadius + np.asarray(m.altitude_boundaries)).tolist()
+    L = chord_table(r, 'old')
+    h2, he = chem.get_gas_mix_profile('H2'), chem.get_gas_mix_profile('He')
+    sig = CIA_TAB[None, :] * (h2 * he)[:, None] + CIA_TAB2[None, :] * (h2 * h2)[:, None]
+    tau, _, _ = tau_layers([(sig * (dens ** 2)[:, None]).tolist()], None, L, 10.0)
+    ctx.verdict('source_is_sum_of_weighted_species', same(alone['cia2'], np.exp(-np.array(tau))), cls='CIA:two-pairs',
+                detail='T(CIA, two pairs) != exp(-sum_pairs table x mix1 x mix2 x n^2 L)', vector=dict(full=True, added=['cia2']))
+    stored_table(ctx, params, alone)
+
+
+def stored_table(ctx, params, alone):
+    """The per-source / per-component table that the program stores (taurex.util.output.store_contributions, used by
+    taurex.py and Optimizer.generate_solution) obeys the same composition rules as the calls it is assembled from."""
+    from taurex.util.output import store_contributions
+    from taurex.binning import FluxBinner, NativeBinner
+    from taurex import OutputSize
+    sub = ['abs', 'cia2', 'ray', 'hm', 'flat']
+    m = build_full(sub, params)
+    T = np.asarray(m.model()[2], dtype=float)
+    for bname, binner in (('native', NativeBinner()), ('flux', FluxBinner(wngrid=np.array([1200.0, 2800.0]), wngrid_width=np.array([800.0, 1600.0])))):
+        vec = dict(full=True, stored=bname, added=sub)
+        try:
+            tab = store_contributions(binner, m, output_size=OutputSize.heavy)
+        except Exception as e:   # noqa
+            ctx.verdict('history_no_exception', False, cls='stored:' + bname, detail='store_contributions: %s: %s' % (type(e).__name__, e), vector=vec)
+            continue
+        ctx.verdict('every_source_once', sorted(tab) == sorted(FULLNAME[k] for k in sub), cls='stored:' + bname,
+                    detail='stored sources %r' % sorted(tab), vector=vec)
+        prod_all = None
+        for k in sub:
+            n = FULLNAME[k]
+            if n not in tab or 'native_tau' not in tab[n]:
+                continue
+            st = np.asarray(tab[n]['native_tau'], dtype=float)
+            ctx.verdict('stored_source_equals_alone', same(st, alone[k]), cls='stored:%s:%s' % (bname, n),
+                        detail='stored transmittance of %s differs from the model with that source alone' % n, vector=vec)
+            comps = [np.asarray(v['native_tau'], dtype=float) for c, v in tab[n].items() if isinstance(v, dict) and 'native_tau' in v]
+            if comps:
+                ctx.verdict('product_over_components', same(np.prod(comps, axis=0), st), cls='stored:%s:%s:n=%d' % (bname, n, len(comps)),
+                            detail='product of the %d stored components of %s != stored %s' % (len(comps), n, n), vector=vec)
+            else:
+                ctx.verdict('every_component_once', False, cls='stored:%s:%s' % (bname, n), detail='no stored components for %s' % n, vector=vec)
+            prod_all = st if prod_all is None else prod_all * st
+        if prod_all is not None:
+            ctx.verdict('product_over_sources', same(prod_all, T), cls='stored:' + bname,
+                        detail='product of the stored sources != T(all)', vector=vec)
+
+
 def run(ctx):
     q = ctx.tier == 'quick'
-    ctx.bounds = dict(spec='4 contributions (2+1+2+1 components), <= %d parameter changes, all interleavings of the three public operations' % (3 if q else 5),
+    ctx.bounds = dict(spec='4 contributions (2+2+2+1 components), <= %d parameter changes, all interleavings of the three public operations' % (3 if q else 5),
                       replay='%d TLC-simulated histories of depth 7 on a real 6-layer model' % (40 if q else 400))
     ctx.assumptions = ['fixture opacities are exact per layer (LayerOpacity/FixtureCIA)',
                        'a freshly built model at the current parameters is the reference for history independence',
                        'the reference for model_full_contrib() is a fresh model on which model() ran first (the flow of taurex.py)']
     ctx.check_spec('compose-repaired', 'MC_Compose', 'MC_Compose_%s.cfg' % ctx.tier)
     ctx.expect_refuted('compose-as-found', 'MC_Compose', 'MC_Compose_asbuilt.cfg', 'NoStaleRead')
+    # design mutant: the source total aliases the (shared) component work array -> the sum read is the last component
+    ctx.expect_refuted('compose-aliased-total', 'MC_Compose', 'MC_Compose_alias.cfg', 'NoStaleRead')
     ctx.check_spec('product-rule', 'MC_Transmission', 'MC_Trans_acc_%s.cfg' % ctx.tier, timeout=1800)
     install_fixtures()
     try:
         weighting(ctx)
         hazes(ctx)
+        all_sources(ctx, 14 if q else 60, 4 if q else 30)
         res = core.run_tlc('MC_Compose', 'SIM_Compose.cfg', workers=1, simulate='num=%d' % (40 if q else 400),
                            depth=80, seed=ctx.seed + 1)
         ctx.add_tlc('simulate-behaviours', res, counts=False)
@@ -410,7 +568,11 @@ def replay(ctx, violations):
         done = set()
         for v in violations:
             vec = v['vector']
-            if 'hist' in vec:
+            if vec.get('full'):
+                if 'full' not in done:
+                    done.add('full')
+                    all_sources(ctx, 14, 4)
+            elif 'hist' in vec:
                 k = repr(vec)
                 if k not in done:
                     done.add(k)
